@@ -356,6 +356,36 @@ def prog_bylen(w, rng):
             return
 
 
+def prog_npindex(w, rng):
+    """C10 / C03: arrays long enough that index x stride leaves the range of a one-byte integer, assigned item by item with indices
+    given as NumPy integers of every width that holds them (np.uint8(40) on Int64[50])"""
+    i = w.index
+    leaf = X.sc(rng.choice(["Int64", "Float64", "Float32", "UInt16", "Int8"]))
+    form = i % 4
+    if form == 0:
+        tx, kw = X.arr(leaf, [rng.choice([33, 40, 50])]), {}
+    elif form == 1:
+        tx, kw = X.arr(leaf, [-1]), dict(mindim=rng.choice([34, 41]), maxdim=1)
+    elif form == 2:
+        tx, kw = X.arr(leaf, [rng.choice([5, 6]), rng.choice([7, 9])], rng.choice([[0, 1], [1, 0]])), {}
+    else:
+        tx, kw = X.struct(X.sc("Int16"), X.arr(leaf, [36])), {}
+    b = rng.randrange(2)
+    if rng.random() < 0.5:
+        w.wedge(b)
+    k = w.new(tx, b, dims_p=0, **kw)
+    if k is None or w.new(pick_type(rng, False), b) is None:
+        return
+    w.npidx_p = 1.0
+    atx = tx if tx["k"] == "arr" else tx["f"][1]
+    sh = w.shadow[k]["sh"] if tx["k"] == "arr" else w.shadow[k][1]["sh"]
+    for _ in range(rng.randint(3, 6)):
+        idx = [rng.randrange(max(0, d - 8), d) if rng.random() < 0.7 else rng.randrange(d) for d in sh]
+        steps = ([] if tx["k"] == "arr" else [("f", 1)]) + [("i", idx)]
+        if w.set(k, target=steps, no_from=True, allow=("null",)) is False and w.steps[-1].get("exc"):
+            return
+
+
 def prog_err(w, rng):
     """C11: objects with live neighbours, then operations that cannot be honoured (each must raise and change no value)"""
     w.capacity_p = 0.4          # strings whose capacity was given explicitly (not a multiple of 8) are where "fits" is subtle
@@ -627,9 +657,9 @@ PROGRAMS = {
     # that are no longer an object of the format (a text without room for its NUL): the fmt:/decode: clauses of set and err steps are C05's
     "C05": lambda w, rng: (prog_defaults if rng.random() < 0.08 else prog_err if rng.random() < 0.1 else prog_set if rng.random() < 0.15
                            else prog_construct if rng.random() < 0.6 else prog_copy)(w, rng),
-    "C03": lambda w, rng: (prog_bylen if rng.random() < 0.07 else prog_intlen if rng.random() < 0.06 else prog_err if rng.random() < 0.1 else prog_copy if rng.random() < 0.3 else (prog_construct if rng.random() < 0.4 else prog_set))(w, rng),
+    "C03": lambda w, rng: (prog_npindex if rng.random() < 0.03 else prog_bylen if rng.random() < 0.07 else prog_intlen if rng.random() < 0.06 else prog_err if rng.random() < 0.1 else prog_copy if rng.random() < 0.3 else (prog_construct if rng.random() < 0.4 else prog_set))(w, rng),
     "C06": lambda w, rng: (prog_construct if rng.random() < 0.2 else (prog_view_copy if rng.random() < 0.2 else (prog_update if rng.random() < 0.2 else (prog_set if rng.random() < 0.6 else prog_copy))))(w, rng),
-    "C10": lambda w, rng: (prog_update if rng.random() < 0.1 else prog_set)(w, rng),
+    "C10": lambda w, rng: (prog_npindex if rng.random() < 0.05 else prog_update if rng.random() < 0.1 else prog_set)(w, rng),
     "C08": lambda w, rng: (prog_repeat if rng.random() < 0.15 else (prog_copy if rng.random() < 0.15 else prog_refs))(w, rng),
     "C11": lambda w, rng: (prog_intlen if rng.random() < 0.06 else prog_err)(w, rng),
     "C20": prog_pickle,
